@@ -146,6 +146,10 @@ def exactness(poly_spec, params, param_specs):
         elif spec["k"] == "np":
             if not numpy.issubdtype(numpy.dtype(spec["dtype"]), numpy.integer):
                 exact = False
+            if spec["dtype"] == "uint64":
+                # numpy promotes uint64 with int64 to float64: rounding above 2**53
+                # is numpy's own promotion rule, not the library's arithmetic
+                exact = False
         elif spec["k"] in ("arr",):
             if spec["dtype"] not in ("int64", "bool"):
                 exact = False
